@@ -59,3 +59,7 @@ def c09_precedence() -> Monitors:
 
 def c10() -> Monitors:
     return Monitors("C10", [m.c10_transition, m.cov_matrix], [m.c10_initial], m.outcome_vector)
+
+
+def c06() -> Monitors:
+    return Monitors("C06", [m.c06_transition, m.cov_matrix], [], m.outcome_vector)
